@@ -410,8 +410,13 @@ def run_cli_one(case, workdir=None, timeout=20, trace_path=None):
             p = subprocess.run(cmd, cwd=cwd, env=env, input=stdin.encode("utf-8"), stdout=subprocess.PIPE,
                                stderr=subprocess.PIPE, timeout=timeout)
         except subprocess.TimeoutExpired:
-            return {"id": case["id"], "outcome": "hang", "exit": -1, "list": None, "report": None,
-                    "error": "timeout %ss" % timeout, "stdout": "", "stderr": ""}
+            # a slow run on a loaded machine is not a hang: only a run that also exceeds five times the limit is one
+            try:
+                p = subprocess.run(cmd, cwd=cwd, env=env, input=stdin.encode("utf-8"), stdout=subprocess.PIPE,
+                                   stderr=subprocess.PIPE, timeout=max(60, timeout * 5))
+            except subprocess.TimeoutExpired:
+                return {"id": case["id"], "outcome": "hang", "exit": -1, "list": None, "report": None,
+                        "error": "timeout %ss and again %ss" % (timeout, max(60, timeout * 5)), "stdout": "", "stderr": ""}
         r = _classify_cli(p.returncode, p.stdout.decode("utf-8", "replace"), p.stderr.decode("utf-8", "replace"),
                           "list" in (case.get("args") or []))
         r["id"] = case["id"]
